@@ -37,6 +37,19 @@ class KeepBytesIO(io.BytesIO):
         super().close()
 
 
+class PipeBytesIO(KeepBytesIO):
+    """standard input as a pipe delivers it: readable, not seekable"""
+
+    def seekable(self):
+        return False
+
+    def seek(self, *a):
+        raise io.UnsupportedOperation("underlying stream is not seekable")
+
+    def tell(self):
+        raise io.UnsupportedOperation("underlying stream is not seekable")
+
+
 class FakeStd:
     def __init__(self, buf):
         self.buffer = buf
@@ -77,7 +90,7 @@ def run_tool(tool, data, opts=(), scratch=None, use_stdin=False, use_stdout=Fals
     argv = list(opts)
     fake_in = fake_out = None
     if use_stdin:
-        fake_in = KeepBytesIO(data)
+        fake_in = PipeBytesIO(data)
     else:
         with open(inp, "wb") as f:
             f.write(data)
